@@ -23,17 +23,17 @@ var (
 	LastPixLen  int
 )
 
-func Init() error                          { InitCalls++; return nil }
-func Enable(cap uint32)                    {}
-func GenTextures(n int32, textures *uint32) { *textures = 1 }
-func BindTexture(target uint32, texture uint32) {}
+func Init() error                                            { InitCalls++; return nil }
+func Enable(cap uint32)                                      {}
+func GenTextures(n int32, textures *uint32)                  { *textures = 1 }
+func BindTexture(target uint32, texture uint32)              {}
 func TexParameteri(target uint32, pname uint32, param int32) {}
 func TexImage2D(target uint32, level int32, internalformat int32, width int32, height int32, border int32, format uint32, xtype uint32, pixels unsafe.Pointer) {
 	FramesDrawn++
 	LastPixLen = int(width) * int(height) * 4
 }
-func Begin(mode uint32)          {}
-func End()                       {}
+func Begin(mode uint32)               {}
+func End()                            {}
 func TexCoord2f(s float32, t float32) {}
 func Vertex2f(x float32, y float32)   {}
 func Ptr(data interface{}) unsafe.Pointer {
